@@ -8,7 +8,7 @@ def register(prop, J):
               "status}; the error object handed to the library is snapshotted before and compared after; each case is followed by a "
               "probe call on the same server; every case is non-trivial; distinct by (kind, method, outcome)",
          jobs=[
-             J("errors-v2", "v2", "resprops", "^TestC08", checks=(6000, 300000), shards=(4, 16), prepare="prepare_resources",
+             J("errors-v2", "v2", "resprops", "^TestC08", checks=(6000, 3000000), shards=(4, 16), prepare="prepare_resources",
                extra_pkgs=["dyn", "gendrv"], timeout=(1200, 3000)),
          ],
          level_text="generated (method, outcome) pairs through generated bindings over HTTP wire bytes against the propagation table "
